@@ -94,6 +94,7 @@ def handle (st : St) (line : String) : St × Option String :=
   if line.startsWith "X" then
     (match parts with
      | [["XC"], src, arg, out] => (st, some (staticOpCmp st src arg out))
+     | [["XF"], src, arg, out] => (st, some (staticOpCmpSpecial st src arg out))
      | [["XD"], l, r, out] => (st, some (staticOpDeq st l r out))
      | [["XL"], src, fn, out] => (st, some (staticOpLC st src fn out))
      | [["XG"], src, out] => (st, some (staticOpGet st src out))
@@ -130,6 +131,16 @@ def handle (st : St) (line : String) : St × Option String :=
   | [head, out] =>
     match head.head? with
     | some "RG" => (st, some (opRegistry st head out))
+    -- FA <tid> | <answers> — DeepEqual of one object with itself through T, *T (the same pointer on both sides),
+    -- **T, and *T against a pointer to an independent copy, on a value whose floats are all NaN (not a value of the
+    -- model: C12.deq_forms_agree says the answers agree for every value it can name; here the claim "the same answer
+    -- in every form" is observed directly). A test-level observation: no model function is evaluated.
+    | some "FA" =>
+      (st, some (match out with
+        | a :: rest =>
+          if a == "panic" || rest.any (· == "panic") then "dev-viol panic"
+          else if rest.all (· == a) then "agree" else "dev-viol DeepEqual answers differ between argument forms"
+        | [] => "skip malformed"))
     | _ => (st, some "skip unknown-op")
   | [head, path, out] =>
     match head.head? with
